@@ -98,6 +98,9 @@ def leaf_obj(n):
   return n
 
 
+LEAF_BACK = {}     # real leaf object -> leaf id, for checks that override leaf_obj
+
+
 class Realizer:
   """Builds real objects for an abstract heap, bottom-up by dependency."""
 
@@ -109,7 +112,7 @@ class Realizer:
 
   def val(self, v):
     if v > 0:
-      return leaf_obj(v)
+      return leaf_obj(v)  # looked up at call time (checks may override it)
     return self.obj(-v)
 
   def obj(self, i):
@@ -167,6 +170,8 @@ class Projector:
     if isinstance(x, int):
       return x
     if isinstance(x, str):
+      if x in LEAF_BACK:
+        return LEAF_BACK[x]
       return ['s', x]
     key = id(x)
     if key in self.ids:
